@@ -370,18 +370,7 @@ package stdlib
 //@   ensures result == (if int_ok(app((*args)[0], context)) then "1" else "")
 
 // ---- C11: string tests return the tested value itself (or "") ----
-//@ smt
-//@ (declare-fun str_has_prefix (Str Str) Bool)
-//@ (declare-fun str_has_suffix (Str Str) Bool)
-//@ end
-//@ extern strings.HasPrefix
-//@   params (s, prefix)
-//@   pure
-//@   ensures result == str_has_prefix(s, prefix)
-//@ extern strings.HasSuffix
-//@   params (s, suffix)
-//@   pure
-//@   ensures result == str_has_suffix(s, suffix)
+// (str_has_prefix / str_has_suffix name what strings.HasPrefix / HasSuffix answer: extern.vc)
 //@ func kfPrefix$1
 //@   ensures result == (if str_has_prefix(app((*args)[0], context), app((*args)[1], context)) then app((*args)[0], context) else "")
 //@ func kfSuffix$1
